@@ -571,9 +571,11 @@ Proof.
     unfold gate, ver_of, create_service_impl; cbv zeta beta; try (rewrite Hc; cbn [fmap option_fmap option_map]);
     try (solve [repeat hp_step; try assumption]).
   (* ClaimChannelEnd: the reply's failure is returned after the other end's owner was told *)
-  destruct (chans (ms m) !! c1) as [ch|]; [|repeat hp_step; assumption].
-  destruct (chan_claim ch c e) as [r|ch' other r|site]; [repeat hp_step; assumption| |exact I].
-  destruct (send _ c (ClaimChannelEndReply serial r) None) as [m2|m2|] eqn:Es; [| |exact I].
+  match goal with |- context [chans (ms m) !! ?k] => destruct (chans (ms m) !! k) as [ch|] end;
+    [|repeat hp_step; assumption].
+  match goal with |- context [chan_claim ch c ?e] => destruct (chan_claim ch c e) as [r|ch' other r|site] end;
+    [repeat hp_step; assumption| |exact I].
+  match goal with |- context [send ?mm c ?x None] => destruct (send mm c x None) as [m2|m2|] eqn:Es end; [| |exact I].
   - apply send_Done in Es as [-> _]. repeat hp_step; assumption.
   - apply send_Fail in Es as [-> _]. apply oprop_refail. repeat hp_step; assumption.
 Qed.
@@ -658,3 +660,640 @@ Qed.
 Corollary at_most_once_outs_to s e f bs s' o c serial :
   step s e f bs = Done (s', o) -> (length (List.filter (is_reply_to serial) (outs_to c o)) <= 1)%nat.
 Proof. intros H. rewrite <- nrep_outs_to. eapply at_most_once. exact H. Qed.
+
+(* ---------------------------------------------------------------- replies are accounted for *)
+(* the sharper form: except in the step that handles c0's own call request with serial s0, the
+   replies with serial s0 output to c0 plus "s0 still pending at c0 afterwards" never exceed
+   "s0 pending at c0 before" — a reply is only ever output for a pending serial, and that serial
+   is not pending afterwards *)
+Definition is_own_call (e : event) (c0 : conn) (s0 : N) : Prop :=
+  match e with
+  | Message c (CallFunction serial _ _ _) | Message c (CallFunction2 serial _ _ _ _) => c = c0 /\ serial = s0
+  | _ => False
+  end.
+
+Lemma Pot_call_insert c0 s0 n m c cs serial p m' :
+  conns (ms m) !! c = Some cs -> ~ (c = c0 /\ serial = s0) ->
+  conns (ms m') = <[c := cs <| cs_calls ::= <[serial := p]> |>]> (conns (ms m)) -> mo m' = mo m ->
+  Pot c0 s0 n m -> Pot c0 s0 n m'.
+Proof.
+  unfold Pot, weight, pend. intros Hc Hne Hs Hm H. rewrite Hm, Hs.
+  destruct (decide (c = c0)) as [->|Hnc].
+  - rewrite lookup_insert. rewrite Hc in H. cbn [cs_calls set].
+    rewrite lookup_insert_ne; [exact H|]. intros ->. apply Hne. auto.
+  - rewrite lookup_insert_ne by exact Hnc. exact H.
+Qed.
+
+Lemma call_impl_pot c0 s0 n m c serial sc fn fver v bs :
+  ~ (c = c0 /\ serial = s0) -> Pot c0 s0 n m -> oprop (Pot c0 s0 n) (call_impl m c serial sc fn fver v bs).
+Proof.
+  intros Hne H. unfold call_impl.
+  assert (Hrep : forall r from, is_rep c0 s0 (c, CallFunctionReply serial r, from) = false).
+  { intros r from. unfold is_rep. cbn. destruct (bool_decide_reflect (serial = s0)) as [->|?]; [|reflexivity].
+    cbn. apply bool_decide_eq_false_2. intros ->. apply Hne. auto. }
+  destruct (svc_by_cookie (ms m) sc) as [[k sv]|].
+  - destruct (owner_of_svc (ms m) k) as [callee|]; [|exact I].
+    destruct (conns (ms m) !! c) as [cs|] eqn:Hc; [|exact H].
+    destruct (pick_serial (ms m) bs) as [[b nxt]|]; [|exact I].
+    destruct (bool_decide (is_Some (cs_calls cs !! serial))); [exact H|].
+    cbn [ms set]. destruct (svcs _ !! k) as [sv'|]; [|exact I].
+    destruct (conns _ !! callee) as [ccs|]; [|exact I].
+    match goal with |- context [send_or_remove ?mm _ _ _] => assert (H1 : Pot c0 s0 n mm) end.
+    { eapply (Pot_call_insert c0 s0 n m c cs serial); [exact Hc|exact Hne|reflexivity|reflexivity|exact H]. }
+    destruct (MIN_CALL_FUNCTION2_OUT <=? cs_ver ccs); apply oprop_send_or_remove;
+      first [ exact H1 | eapply Pot_snoc_other; [|reflexivity|reflexivity|exact H1]; reflexivity ].
+  - apply oprop_send; [|exact H]. eapply Pot_snoc_other; [apply Hrep|reflexivity|reflexivity|exact H].
+Qed.
+
+Lemma handle_pot_all c0 s0 n m c x f bs :
+  ~ is_own_call (Message c x) c0 s0 -> Pot c0 s0 n m -> oprop (Pot c0 s0 n) (handle m c x f bs).
+Proof.
+  intros Hne H.
+  assert (Hcase : (match x with CallFunction _ _ _ _ | CallFunction2 _ _ _ _ _ => True | _ => False end) \/
+                  (match x with CallFunction _ _ _ _ | CallFunction2 _ _ _ _ _ => False | _ => True end))
+    by (destruct x; auto).
+  destruct Hcase as [Hcall|Hother]; [|apply handle_pot; assumption].
+  unfold handle. destruct (conns (ms m) !! c) as [cs|] eqn:Hc; [|exact H].
+  destruct x; try contradiction; cbn [is_own_call] in Hne.
+  - apply call_impl_pot; assumption.
+  - unfold gate, ver_of. rewrite Hc. cbn [fmap option_fmap option_map].
+    destruct (cs_ver cs <? MIN_CALL_FUNCTION2); [exact H|]. apply call_impl_pot; assumption.
+Qed.
+
+Theorem reply_accounting s e f bs s' o c0 s0 :
+  step s e f bs = Done (s', o) -> ~ is_own_call e c0 s0 ->
+  (nrep c0 s0 o + pend c0 s0 s' <= pend c0 s0 s)%nat.
+Proof.
+  intros Hstep Hne. apply step_Done in Hstep as (m & m' & Hh & Hs & -> & ->).
+  set (n := pend c0 s0 s).
+  assert (Hinit : Pot c0 s0 n (m_init s)) by (unfold Pot, weight; cbn; subst n; lia).
+  assert (Hpost : Pot c0 s0 n m).
+  { destruct e; cbn [step_handler] in Hh; fold (m_init s) in Hh.
+    - destruct (conns s !! c) eqn:Hc; [discriminate|]. injection Hh as <-.
+      unfold Pot, weight, pend. cbn. subst n. unfold pend.
+      destruct (decide (c0 = c)) as [->|Hnc].
+      + rewrite lookup_insert. cbn. rewrite lookup_empty.
+        rewrite bool_decide_eq_false_2 by (intros [? ?]; discriminate). lia.
+      + rewrite lookup_insert_ne by congruence. lia.
+    - injection Hh as <-. exact Hinit.
+    - pose proof (handle_pot_all c0 s0 n (m_init s) c m0 f bs Hne Hinit) as Hp.
+      destruct (handle (m_init s) c m0 f bs) as [m1|m1|]; try discriminate; injection Hh as <-; exact Hp.
+    - injection Hh as <-.
+      change (Pot c0 s0 n (foldr (fun (p : conn * cstate) (m : M) => push_remove m p.1 true) (m_init s) (map_to_list (conns s)))).
+      apply (prop_foldr (Pot c0 s0 n)); [|exact Hinit]. intros x a Hx. exact Hx.
+    - injection Hh as <-. exact Hinit.
+    - injection Hh as <-. exact Hinit.
+    - injection Hh as <-. destruct (conns s !! c) as [cs|] eqn:Hc; [|exact Hinit].
+      unfold Pot, weight, pend. cbn. subst n. unfold pend.
+      destruct (decide (c0 = c)) as [->|Hnc].
+      + rewrite lookup_insert, Hc. cbn. lia.
+      + rewrite lookup_insert_ne by congruence. lia. }
+  pose proof (settle_pot c0 s0 n (fuel_for (ms m)) m Hpost) as Hsp.
+  destruct Hs as [Hs|Hs]; rewrite Hs in Hsp; exact Hsp.
+Qed.
+
+(* consequences: a reply appears only for a serial that was pending, and clears it *)
+Corollary reply_only_if_pending s e f bs s' o c0 s0 :
+  step s e f bs = Done (s', o) -> ~ is_own_call e c0 s0 -> (0 < nrep c0 s0 o)%nat ->
+  pend c0 s0 s = 1%nat /\ pend c0 s0 s' = 0%nat /\ nrep c0 s0 o = 1%nat.
+Proof.
+  intros H Hne Hpos. pose proof (reply_accounting _ _ _ _ _ _ c0 s0 H Hne). pose proof (pend_le_1 c0 s0 s). lia.
+Qed.
+
+(* ---------------------------------------------------------------- removal of a misbehaving caller *)
+(* a call with a caller serial that is still pending: the caller is not connected afterwards *)
+Theorem call_duplicate_serial_removed s c cs x serial sc fn fver v f bs k sv callee b nxt p s' o :
+  conns s !! c = Some cs -> is_call cs x serial sc fn fver v ->
+  svc_by_cookie s sc = Some (k, sv) -> owner_of_svc s k = Some callee ->
+  pick_serial s bs = Some (b, nxt) -> cs_calls cs !! serial = Some p ->
+  step s (Message c x) f bs = Done (s', o) -> conns s' !! c = None.
+Proof.
+  intros Hc Hx Hs Ho Hp Hser Hstep. eapply failed_handler_removed; [exact Hstep|].
+  eapply call_duplicate_serial_fails; eassumption.
+Qed.
+
+(* ---------------------------------------------------------------- conservation: exactly one *)
+(* for a connection whose receiver is alive at the end of the step the accounting is exact:
+   replies output + still pending = pending before.  So a pending serial that is no longer
+   pending after the step was answered exactly once in it. *)
+Definition Cv (c0 : conn) (s0 : N) (n : nat) (m : M) : Prop :=
+  alive (ms m) c0 = true -> weight c0 s0 m = n.
+
+Lemma Cv_snoc_other c0 s0 n m o m' :
+  is_rep c0 s0 o = false -> mo m' = mo m ++ [o] -> ms m' = ms m -> Cv c0 s0 n m -> Cv c0 s0 n m'.
+Proof.
+  unfold Cv, weight. intros Ho Hm Hs H Ha. rewrite Hs in Ha |- *. rewrite Hm, nrep_app. unfold nrep at 2. cbn. rewrite Ho. cbn.
+  specialize (H Ha). lia.
+Qed.
+
+Lemma Cv_conns_delete c0 s0 n m c m' :
+  mo m' = mo m -> conns (ms m') = delete c (conns (ms m)) -> Cv c0 s0 n m -> Cv c0 s0 n m'.
+Proof.
+  unfold Cv, weight, pend, alive. intros Hm Hs H. rewrite Hm, Hs. destruct (decide (c0 = c)) as [->|Hne].
+  - rewrite lookup_delete. discriminate.
+  - rewrite lookup_delete_ne by congruence. exact H.
+Qed.
+
+Lemma Cv_reply_sent c0 s0 n m c cs serial p r from m' :
+  conns (ms m) !! c = Some cs -> cs_calls cs !! serial = Some p ->
+  conns (ms m') = <[c := cs <| cs_calls ::= delete serial |>]> (conns (ms m)) ->
+  mo m' = mo m ++ [(c, CallFunctionReply serial r, from)] ->
+  Cv c0 s0 n m -> Cv c0 s0 n m'.
+Proof.
+  unfold Cv, weight, pend, alive. intros Hc Hp Hs Hm H. rewrite Hm, Hs, nrep_app.
+  destruct (decide (c = c0)) as [->|Hne].
+  - rewrite lookup_insert. rewrite Hc in H. cbn [cs_calls cs_alive set]. intros Ha. specialize (H Ha).
+    destruct (decide (serial = s0)) as [->|Hns].
+    + rewrite lookup_delete. rewrite (bool_decide_eq_true_2 (is_Some (cs_calls cs !! s0))) in H by (rewrite Hp; eauto).
+      rewrite (bool_decide_eq_false_2 (is_Some None)) by (intros [? ?]; discriminate).
+      assert (E : nrep c0 s0 [(c0, CallFunctionReply s0 r, from)] = 1%nat).
+      { unfold nrep, is_rep. cbn. rewrite !bool_decide_eq_true_2 by reflexivity. reflexivity. }
+      rewrite E. lia.
+    + rewrite lookup_delete_ne by congruence.
+      assert (E : nrep c0 s0 [(c0, CallFunctionReply serial r, from)] = 0%nat).
+      { unfold nrep, is_rep. cbn. rewrite (bool_decide_eq_false_2 (serial = s0)) by exact Hns. reflexivity. }
+      rewrite E. lia.
+  - rewrite lookup_insert_ne by congruence. intros Ha. specialize (H Ha).
+    assert (E : nrep c0 s0 [(c, CallFunctionReply serial r, from)] = 0%nat).
+    { unfold nrep, is_rep. cbn. rewrite (bool_decide_eq_false_2 (c = c0)) by exact Hne. rewrite andb_false_r. reflexivity. }
+    rewrite E. lia.
+Qed.
+
+(* the reply could not be sent: then the caller's receiver is gone, and for it nothing is claimed *)
+Lemma Cv_reply_unsent c0 s0 n m c cs serial m' :
+  conns (ms m) !! c = Some cs ->
+  conns (ms m') = <[c := cs <| cs_calls ::= delete serial |>]> (conns (ms m)) ->
+  mo m' = mo m -> alive (ms m') c = false ->
+  Cv c0 s0 n m -> Cv c0 s0 n m'.
+Proof.
+  unfold Cv, weight, pend, alive. intros Hc Hs Hm Hd H. rewrite Hm, Hs. rewrite Hs in Hd.
+  destruct (decide (c = c0)) as [->|Hne].
+  - rewrite lookup_insert in Hd |- *. cbn in Hd |- *. congruence.
+  - rewrite lookup_insert_ne by congruence. exact H.
+Qed.
+
+Lemma Cv_call_insert c0 s0 n m c cs serial p m' :
+  conns (ms m) !! c = Some cs -> ~ (c = c0 /\ serial = s0) ->
+  conns (ms m') = <[c := cs <| cs_calls ::= <[serial := p]> |>]> (conns (ms m)) -> mo m' = mo m ->
+  Cv c0 s0 n m -> Cv c0 s0 n m'.
+Proof.
+  unfold Cv, weight, pend, alive. intros Hc Hne Hs Hm H. rewrite Hm, Hs.
+  destruct (decide (c = c0)) as [->|Hnc].
+  - rewrite lookup_insert. rewrite Hc in H. cbn [cs_calls cs_alive set].
+    rewrite lookup_insert_ne; [exact H|]. intros ->. apply Hne. auto.
+  - rewrite lookup_insert_ne by exact Hnc. exact H.
+Qed.
+
+Ltac leaf_cv :=
+  idtac;
+  first
+    [ match goal with H : Cv ?c ?s ?n ?m |- Cv ?c ?s ?n _ => exact H end
+    | match goal with |- Cv ?c ?s ?n (set mo _ ?x) =>
+        eapply (Cv_snoc_other c s n x); [|reflexivity|reflexivity|leaf_cv]; reflexivity end
+    | match goal with |- Cv ?c ?s ?n (set mo _ (set _ _ ?x)) =>
+        eapply (Cv_reply_sent c s n x); [eassumption|eassumption|reflexivity|reflexivity|leaf_cv] end
+    | match goal with Hd : alive _ _ = false |- Cv ?c ?s ?n (push_remove (set _ _ ?x) _ _) =>
+        eapply (Cv_reply_unsent c s n x); [eassumption|reflexivity|reflexivity|exact Hd|leaf_cv] end
+    | match goal with |- ?P (push_remove ?x _ _) => change (P x) end
+    | match goal with |- ?P (set _ _ ?x) => change (P x) end ].
+
+Section CvTraversal.
+  Context (c0 : conn) (s0 : N) (n : nat).
+  Local Notation P := (Cv c0 s0 n).
+
+  Lemma remove_end_cv m k e : P m -> oprop P (remove_end m k e).
+  Proof. intros H. unfold remove_end. repeat prop_step_d leaf_cv. Qed.
+
+  Lemma remove_service_cv m k : P m -> oprop P (remove_service m k).
+  Proof. intros H. unfold remove_service. repeat prop_step_d leaf_cv. Qed.
+
+  Lemma remove_object_cv m k : P m -> oprop P (remove_object m k).
+  Proof.
+    intros H. unfold remove_object.
+    repeat first [ match goal with |- oprop _ (remove_service _ _) => apply remove_service_cv end
+                 | prop_step_d leaf_cv ]; assumption.
+  Qed.
+
+  Lemma remove_listener_cv m k : P m -> P (remove_listener m k).
+  Proof. intros H. unfold remove_listener. destruct (listeners (ms m) !! k); exact H. Qed.
+
+  Lemma bus_cv m ev : P m -> oprop P (bus m ev).
+  Proof. intros H. unfold bus. repeat prop_step_d leaf_cv. Qed.
+
+  Lemma shutdown_conn_cv m c sd : P m -> oprop P (shutdown_conn m c sd).
+  Proof.
+    intros H. unfold shutdown_conn. destruct (conns (ms m) !! c) as [cs|] eqn:Hc; [|exact H].
+    set (m1 := if sd && cs_alive cs then _ else _).
+    assert (H1 : P m1).
+    { assert (H0 : P (m <| ms; conns ::= delete c |>)) by (eapply Cv_conns_delete; [| |exact H]; reflexivity).
+      subst m1. destruct (sd && cs_alive cs); [|exact H0].
+      eapply Cv_snoc_other; [|reflexivity|reflexivity|exact H0]; reflexivity. }
+    clearbody m1.
+    repeat first
+      [ match goal with
+        | |- oprop _ (remove_object _ _) => apply remove_object_cv
+        | |- oprop _ (remove_end _ _ _) => apply remove_end_cv
+        | |- Cv _ _ _ (remove_listener _ _) => apply remove_listener_cv
+        end
+      | prop_step_d leaf_cv ]; assumption.
+  Qed.
+
+  Lemma abort_call_cv m b callee : P m -> oprop P (abort_call m b callee).
+  Proof. intros H. unfold abort_call. repeat prop_step_d leaf_cv. Qed.
+
+  Lemma settle_one_cv m r : P m -> settle_one m = Some r -> oprop P r.
+  Proof.
+    intros H. unfold settle_one.
+    repeat match goal with
+           | |- match ?l with [] => _ | _ :: _ => _ end = Some _ -> _ => destruct l as [|? ?]
+           | |- (let '(_, _) := ?p in _) = Some _ -> _ => destruct p
+           end; try discriminate; intros [= <-];
+      repeat first
+        [ match goal with
+          | |- oprop _ (shutdown_conn _ _ _) => apply shutdown_conn_cv
+          | |- oprop _ (abort_call _ _ _) => apply abort_call_cv
+          | |- oprop _ (bus _ _) => apply bus_cv
+          end
+        | prop_step_d leaf_cv ]; try exact H.
+  Qed.
+
+  Lemma settle_cv fuel : forall m, P m -> oprop P (settle fuel m).
+  Proof.
+    induction fuel as [|fuel IH]; intros m H; cbn [settle];
+      destruct (settle_one m) as [r|] eqn:E; try exact H;
+      pose proof (settle_one_cv m r H E) as Hr; destruct r; cbn in Hr |- *; trivial; apply IH; assumption.
+  Qed.
+End CvTraversal.
+
+Ltac hc_step :=
+  first
+    [ match goal with
+      | |- oprop _ (remove_object _ _) => apply remove_object_cv
+      | |- oprop _ (remove_service _ _) => apply remove_service_cv
+      | |- oprop _ (remove_end _ _ _) => apply remove_end_cv
+      | |- Cv _ _ _ (remove_listener _ _) => apply remove_listener_cv
+      end
+    | prop_step_d leaf_cv ].
+
+Lemma handle_cv c0 s0 n m c x f b :
+  (match x with CallFunction _ _ _ _ | CallFunction2 _ _ _ _ _ => False | _ => True end) ->
+  Cv c0 s0 n m -> oprop (Cv c0 s0 n) (handle m c x f b).
+Proof.
+  intros Hx H. unfold handle. destruct (conns (ms m) !! c) as [cs|] eqn:Hc; [|exact H].
+  destruct x; try contradiction; clear Hx;
+    unfold gate, ver_of, create_service_impl; cbv zeta beta; try (rewrite Hc; cbn [fmap option_fmap option_map]);
+    try (solve [repeat hc_step; try assumption]).
+  match goal with |- context [chans (ms m) !! ?k] => destruct (chans (ms m) !! k) as [ch|] end;
+    [|repeat hc_step; assumption].
+  match goal with |- context [chan_claim ch c ?e] => destruct (chan_claim ch c e) as [r|ch' other r|site] end;
+    [repeat hc_step; assumption| |exact I].
+  match goal with |- context [send ?mm c ?x None] => destruct (send mm c x None) as [m2|m2|] eqn:Es end; [| |exact I].
+  - apply send_Done in Es as [-> _]. repeat hc_step; assumption.
+  - apply send_Fail in Es as [-> _]. apply oprop_refail. repeat hc_step; assumption.
+Qed.
+
+Lemma call_impl_cv c0 s0 n m c serial sc fn fver v bs :
+  ~ (c = c0 /\ serial = s0) -> Cv c0 s0 n m -> oprop (Cv c0 s0 n) (call_impl m c serial sc fn fver v bs).
+Proof.
+  intros Hne H. unfold call_impl.
+  assert (Hrep : forall r from, is_rep c0 s0 (c, CallFunctionReply serial r, from) = false).
+  { intros r from. unfold is_rep. cbn. destruct (bool_decide_reflect (serial = s0)) as [->|?]; [|reflexivity].
+    cbn. apply bool_decide_eq_false_2. intros ->. apply Hne. auto. }
+  destruct (svc_by_cookie (ms m) sc) as [[k sv]|].
+  - destruct (owner_of_svc (ms m) k) as [callee|]; [|exact I].
+    destruct (conns (ms m) !! c) as [cs|] eqn:Hc; [|exact H].
+    destruct (pick_serial (ms m) bs) as [[b nxt]|]; [|exact I].
+    destruct (bool_decide (is_Some (cs_calls cs !! serial))); [exact H|].
+    cbn [ms set]. destruct (svcs _ !! k) as [sv'|]; [|exact I].
+    destruct (conns _ !! callee) as [ccs|]; [|exact I].
+    match goal with |- context [send_or_remove ?mm _ _ _] => assert (H1 : Cv c0 s0 n mm) end.
+    { eapply (Cv_call_insert c0 s0 n m c cs serial); [exact Hc|exact Hne|reflexivity|reflexivity|exact H]. }
+    destruct (MIN_CALL_FUNCTION2_OUT <=? cs_ver ccs); apply oprop_send_or_remove;
+      first [ exact H1 | eapply Cv_snoc_other; [|reflexivity|reflexivity|exact H1]; reflexivity ].
+  - apply oprop_send; [|exact H]. eapply Cv_snoc_other; [apply Hrep|reflexivity|reflexivity|exact H].
+Qed.
+
+Lemma handle_cv_all c0 s0 n m c x f bs :
+  ~ is_own_call (Message c x) c0 s0 -> Cv c0 s0 n m -> oprop (Cv c0 s0 n) (handle m c x f bs).
+Proof.
+  intros Hne H.
+  assert (Hcase : (match x with CallFunction _ _ _ _ | CallFunction2 _ _ _ _ _ => True | _ => False end) \/
+                  (match x with CallFunction _ _ _ _ | CallFunction2 _ _ _ _ _ => False | _ => True end))
+    by (destruct x; auto).
+  destruct Hcase as [Hcall|Hother]; [|apply handle_cv; assumption].
+  unfold handle. destruct (conns (ms m) !! c) as [cs|] eqn:Hc; [|exact H].
+  destruct x; try contradiction; cbn [is_own_call] in Hne.
+  - apply call_impl_cv; assumption.
+  - unfold gate, ver_of. rewrite Hc. cbn [fmap option_fmap option_map].
+    destruct (cs_ver cs <? MIN_CALL_FUNCTION2); [exact H|]. apply call_impl_cv; assumption.
+Qed.
+
+(* C02, exactly once: for a connection that is connected with a working receiver after the step,
+   and any step other than the handling of its own call request with serial s0 *)
+Theorem reply_conservation s e f bs s' o c0 s0 :
+  step s e f bs = Done (s', o) -> ~ is_own_call e c0 s0 -> alive s' c0 = true ->
+  (nrep c0 s0 o + pend c0 s0 s')%nat = pend c0 s0 s.
+Proof.
+  intros Hstep Hne Halive. apply step_Done in Hstep as (m & m' & Hh & Hs & -> & ->).
+  set (n := pend c0 s0 s).
+  assert (Hinit : Cv c0 s0 n (m_init s)) by (intros _; unfold weight; cbn; subst n; lia).
+  assert (Hpost : Cv c0 s0 n m).
+  { destruct e; cbn [step_handler] in Hh; fold (m_init s) in Hh.
+    - destruct (conns s !! c) eqn:Hc; [discriminate|]. injection Hh as <-.
+      unfold Cv, weight, pend, alive. cbn. subst n. unfold pend.
+      destruct (decide (c0 = c)) as [->|Hnc].
+      + rewrite lookup_insert, Hc. cbn. rewrite lookup_empty.
+        rewrite bool_decide_eq_false_2 by (intros [? ?]; discriminate). reflexivity.
+      + rewrite lookup_insert_ne by congruence. intros _. lia.
+    - injection Hh as <-. exact Hinit.
+    - pose proof (handle_cv_all c0 s0 n (m_init s) c m0 f bs Hne Hinit) as Hp.
+      destruct (handle (m_init s) c m0 f bs) as [m1|m1|]; try discriminate; injection Hh as <-; exact Hp.
+    - injection Hh as <-.
+      change (Cv c0 s0 n (foldr (fun (p : conn * cstate) (m : M) => push_remove m p.1 true) (m_init s) (map_to_list (conns s)))).
+      apply (prop_foldr (Cv c0 s0 n)); [|exact Hinit]. intros x a Hx. exact Hx.
+    - injection Hh as <-. exact Hinit.
+    - injection Hh as <-. exact Hinit.
+    - injection Hh as <-. destruct (conns s !! c) as [cs|] eqn:Hc; [|exact Hinit].
+      unfold Cv, weight, pend, alive. cbn. subst n. unfold pend.
+      destruct (decide (c0 = c)) as [->|Hnc].
+      + rewrite lookup_insert. cbn. discriminate.
+      + rewrite lookup_insert_ne by congruence. intros _. lia. }
+  pose proof (settle_cv c0 s0 n (fuel_for (ms m)) m Hpost) as Hsp.
+  destruct Hs as [Hs|Hs]; rewrite Hs in Hsp; exact (Hsp Halive).
+Qed.
+
+(* a serial that was pending and is not any more, at a connection that is still there with a
+   working receiver: exactly one reply with that serial was delivered in this step *)
+Corollary resolved_exactly_once s e f bs s' o c0 s0 :
+  step s e f bs = Done (s', o) -> ~ is_own_call e c0 s0 -> alive s' c0 = true ->
+  pend c0 s0 s = 1%nat -> pend c0 s0 s' = 0%nat -> nrep c0 s0 o = 1%nat.
+Proof. intros H Hne Ha H1 H0. pose proof (reply_conservation _ _ _ _ _ _ c0 s0 H Hne Ha). lia. Qed.
+
+(* and conversely no reply in a step that leaves the serial pending, or in which it was not *)
+Corollary unresolved_no_reply s e f bs s' o c0 s0 :
+  step s e f bs = Done (s', o) -> ~ is_own_call e c0 s0 ->
+  pend c0 s0 s' = pend c0 s0 s -> nrep c0 s0 o = 0%nat.
+Proof. intros H Hne He. pose proof (reply_accounting _ _ _ _ _ _ c0 s0 H Hne). lia. Qed.
+
+(* ---------------------------------------------------------------- whole histories *)
+Lemma step_not_Fail s e f bs x : step s e f bs <> Fail x.
+Proof.
+  rewrite step_unfold. destruct (step_handler s e f bs) as [m|m|]; try discriminate;
+    destruct (settle (fuel_for (ms m)) m); discriminate.
+Qed.
+
+Lemma run_cons s i rest s' os : run s (i :: rest) = Done (s', os) ->
+  exists s1 o os', step s (i_ev i) (i_fresh i) (i_bserial i) = Done (s1, o) /\
+                   run s1 rest = Done (s', os') /\ os = o :: os'.
+Proof.
+  cbn [run]. destruct (step s (i_ev i) (i_fresh i) (i_bserial i)) as [[s1 o]|[s1 o]|] eqn:E; try discriminate.
+  - destruct (run s1 rest) as [[s2 os']|[s2 os']|] eqn:E2; try discriminate.
+    + intros [= <- <-]. eauto 10.
+    + exfalso. clear -E2. revert s1 s2 os' E2. induction rest as [|j rest IH]; intros s1 s2 os' E2; cbn [run] in E2; [discriminate|].
+      destruct (step s1 (i_ev j) (i_fresh j) (i_bserial j)) as [[s3 o3]|[s3 o3]|]; try discriminate;
+        destruct (run s3 rest) as [[? ?]|[? ?]|]; discriminate.
+  - exfalso. exact (step_not_Fail _ _ _ _ _ E).
+Qed.
+
+(* along any history that does not contain c0's own call request with serial s0 (i.e. between
+   two uses of the serial), all steps together deliver at most one reply with serial s0 to c0,
+   and none unless s0 was pending at the start *)
+Theorem history_accounting h : forall s s' os c0 s0,
+  run s h = Done (s', os) -> Forall (fun i => ~ is_own_call (i_ev i) c0 s0) h ->
+  (nrep c0 s0 (concat os) + pend c0 s0 s' <= pend c0 s0 s)%nat.
+Proof.
+  induction h as [|i rest IH]; intros s s' os c0 s0 Hrun Hall.
+  - cbn in Hrun. injection Hrun as <- <-. cbn. lia.
+  - apply run_cons in Hrun as (s1 & o & os' & Hstep & Hrest & ->). apply Forall_cons in Hall as [Hi Hall].
+    cbn [concat]. rewrite nrep_app.
+    pose proof (reply_accounting _ _ _ _ _ _ c0 s0 Hstep Hi). pose proof (IH _ _ _ c0 s0 Hrest Hall). lia.
+Qed.
+
+(* c0 is connected with a working receiver after every step of the history *)
+Fixpoint alive_along (c0 : conn) (s : state) (h : list input) : Prop :=
+  match h with
+  | [] => True
+  | i :: rest =>
+      match step s (i_ev i) (i_fresh i) (i_bserial i) with
+      | Done (s1, _) | Fail (s1, _) => alive s1 c0 = true /\ alive_along c0 s1 rest
+      | Panic _ => True
+      end
+  end.
+
+(* ... and exactly one if c0 stays connected and the serial is not pending at the end *)
+Theorem history_conservation h : forall s s' os c0 s0,
+  run s h = Done (s', os) -> Forall (fun i => ~ is_own_call (i_ev i) c0 s0) h -> alive_along c0 s h ->
+  (nrep c0 s0 (concat os) + pend c0 s0 s')%nat = pend c0 s0 s.
+Proof.
+  induction h as [|i rest IH]; intros s s' os c0 s0 Hrun Hall Hal.
+  - cbn in Hrun. injection Hrun as <- <-. cbn. lia.
+  - apply run_cons in Hrun as (s1 & o & os' & Hstep & Hrest & ->). apply Forall_cons in Hall as [Hi Hall].
+    cbn [alive_along] in Hal. rewrite Hstep in Hal. destruct Hal as [Ha1 Hal].
+    cbn [concat]. rewrite nrep_app.
+    pose proof (reply_conservation _ _ _ _ _ _ c0 s0 Hstep Hi Ha1). pose proof (IH _ _ _ c0 s0 Hrest Hall Hal). lia.
+Qed.
+
+(* ---------------------------------------------------------------- the invariant facts used, named *)
+(* The hypotheses above that are not about the request itself follow from the broker's global
+   consistency invariant; these two predicates are exactly what is needed, to be discharged from
+   [Inv] (Broker/Inv.v).  Every pending serial of a connection points to a stored, non-aborted
+   call of that connection with that serial ... *)
+Definition calls_consistent (s : state) : Prop :=
+  forall c cs serial b callee, conns s !! c = Some cs -> cs_calls cs !! serial = Some (b, callee) ->
+    exists cl, calls s !! b = Some cl /\ c_caller cl = c /\ c_serial cl = serial /\ c_aborted cl = false.
+
+(* ... and every stored call belongs to a stored service that lists it, and — unless aborted —
+   is pending at its caller (if that is still connected) under its serial *)
+Definition calls_backlinked (s : state) : Prop :=
+  forall b cl, calls s !! b = Some cl ->
+    (exists sv, svcs s !! c_svc cl = Some sv /\ b ∈ s_calls sv) /\
+    (c_aborted cl = false -> forall ccs, conns s !! c_caller cl = Some ccs ->
+       exists callee, cs_calls ccs !! c_serial cl = Some (b, callee)).
+
+Corollary abort_step_consistent s c cs serial b callee f bs :
+  calls_consistent s ->
+  conns s !! c = Some cs -> cs_alive cs = true -> 16 <= cs_ver cs ->
+  cs_calls cs !! serial = Some (b, callee) ->
+  (forall ccs, conns s !! callee = Some ccs -> 16 <= cs_ver ccs -> cs_alive ccs = true) ->
+  exists cl, calls s !! b = Some cl /\
+    step s (Message c (AbortFunctionCall serial)) f bs =
+      Done (s <| calls ::= <[b := cl <| c_aborted := true |>]> |>
+              <| conns ::= <[c := cs <| cs_calls ::= delete serial |>]> |>,
+            abort_notice s callee b ++ [(c, CallFunctionReply serial CRAborted, None)]).
+Proof.
+  intros Hinv Hc Hal Hv Hser Hcallee. destruct (Hinv c cs serial b callee Hc Hser) as (cl & H1 & H2 & H3 & H4).
+  exists cl. split; [exact H1|]. eapply abort_step; eassumption.
+Qed.
+
+Corollary reply_routed_backlinked s o ocs b r cl ccs f bs :
+  calls_backlinked s ->
+  conns s !! o = Some ocs -> calls s !! b = Some cl -> owner_of_svc s (c_svc cl) = Some o ->
+  c_aborted cl = false -> conns s !! c_caller cl = Some ccs -> cs_alive ccs = true ->
+  exists sv, step s (Message o (CallFunctionReply b r)) f bs =
+    Done (reply_state s b cl sv ccs, [(c_caller cl, CallFunctionReply (c_serial cl) r, Some (cs_ver ocs))]).
+Proof.
+  intros Hinv Ho Hcl Hown Hab Hcc Hal. destruct (Hinv b cl Hcl) as ((sv & Hsv & Hin) & Hp).
+  destruct (Hp Hab ccs Hcc) as (callee & Hser). exists sv. eapply reply_routed; eassumption.
+Qed.
+
+(* both hold initially *)
+Lemma calls_consistent_init : calls_consistent init.
+Proof. intros c cs serial b callee H. cbn in H. rewrite lookup_empty in H. discriminate. Qed.
+Lemma calls_backlinked_init : calls_backlinked init.
+Proof. intros b cl H. cbn in H. rewrite lookup_empty in H. discriminate. Qed.
+Lemma invariant_facts_init : calls_consistent init /\ calls_backlinked init.
+Proof. exact (conj calls_consistent_init calls_backlinked_init). Qed.
+
+(* ---------------------------------------------------------------- which results a reply can carry *)
+(* "the owner's result unchanged, otherwise the synthesized outcome": in a step that does not
+   handle a CallFunctionReply message, every reply output is broker-made and carries
+   InvalidService or Aborted (the step that does handle one is described exactly by
+   [reply_routed] / [reply_dropped] / [reply_after_abort]) *)
+Definition Ksyn (o : out) : Prop :=
+  match o.1.2 with
+  | CallFunctionReply _ r => (r = CRInvalidService \/ r = CRAborted) /\ o.2 = None
+  | _ => True
+  end.
+Definition SY (m : M) : Prop :=
+  Forall (fun e : N * conn * call_result => e.2 = CRInvalidService) (w_rm_call (mw m)) /\ Forall Ksyn (mo m).
+
+Lemma SY_snoc m o m' : Ksyn o -> mo m' = mo m ++ [o] -> w_rm_call (mw m') = w_rm_call (mw m) -> SY m -> SY m'.
+Proof.
+  unfold SY. intros Ho Hm Hw [H1 H2]. rewrite Hm, Hw. split; [exact H1|].
+  apply Forall_app. split; [exact H2|]. constructor; [exact Ho|constructor].
+Qed.
+Lemma SY_push m e m' : e.2 = CRInvalidService -> mo m' = mo m -> w_rm_call (mw m') = e :: w_rm_call (mw m) -> SY m -> SY m'.
+Proof. unfold SY. intros He Hm Hw [H1 H2]. rewrite Hm, Hw. split; [constructor; assumption|exact H2]. Qed.
+
+Ltac ksyn := cbn; first [ exact I | split; [left; reflexivity|reflexivity] | split; [right; reflexivity|reflexivity] ].
+
+Ltac leaf_sy :=
+  idtac;
+  first
+    [ match goal with H : SY ?m |- SY _ => exact H end
+    | match goal with |- SY (set mo _ ?x) => eapply (SY_snoc x); [|reflexivity|reflexivity|leaf_sy]; ksyn end
+    | match goal with |- SY (set mw (set w_rm_call (cons ?e)) ?x) =>
+        eapply (SY_push x e); [reflexivity|reflexivity|reflexivity|leaf_sy] end
+    | match goal with |- ?P (push_remove ?x _ _) => change (P x) end
+    | match goal with |- ?P (set _ _ ?x) => change (P x) end ].
+
+Lemma remove_end_sy m k e : SY m -> oprop SY (remove_end m k e).
+Proof. intros H. unfold remove_end. repeat prop_step leaf_sy. Qed.
+Lemma remove_service_sy m k : SY m -> oprop SY (remove_service m k).
+Proof. intros H. unfold remove_service. repeat prop_step leaf_sy. Qed.
+Lemma remove_object_sy m k : SY m -> oprop SY (remove_object m k).
+Proof.
+  intros H. unfold remove_object.
+  repeat first [ match goal with |- oprop _ (remove_service _ _) => apply remove_service_sy end
+               | prop_step leaf_sy ]; assumption.
+Qed.
+Lemma remove_listener_sy m k : SY m -> SY (remove_listener m k).
+Proof. intros H. unfold remove_listener. destruct (listeners (ms m) !! k); exact H. Qed.
+Lemma bus_sy m ev : SY m -> oprop SY (bus m ev).
+Proof. intros H. unfold bus. repeat prop_step leaf_sy. Qed.
+Lemma abort_call_sy m b callee : SY m -> oprop SY (abort_call m b callee).
+Proof. intros H. unfold abort_call. repeat prop_step leaf_sy. Qed.
+
+Lemma shutdown_conn_sy m c sd : SY m -> oprop SY (shutdown_conn m c sd).
+Proof.
+  intros H. unfold shutdown_conn. destruct (conns (ms m) !! c) as [cs|] eqn:Hc; [|exact H].
+  set (m1 := if sd && cs_alive cs then _ else _).
+  assert (H1 : SY m1).
+  { subst m1. destruct (sd && cs_alive cs); [|exact H]. eapply SY_snoc; [|reflexivity|reflexivity|exact H]; exact I. }
+  clearbody m1.
+  repeat first
+    [ match goal with
+      | |- oprop _ (remove_object _ _) => apply remove_object_sy
+      | |- oprop _ (remove_end _ _ _) => apply remove_end_sy
+      | |- SY (remove_listener _ _) => apply remove_listener_sy
+      end
+    | prop_step leaf_sy ]; assumption.
+Qed.
+
+Lemma settle_one_sy m r : SY m -> settle_one m = Some r -> oprop SY r.
+Proof.
+  intros H. unfold settle_one.
+  destruct (w_remove_conns (mw m)) as [|[c sd] q0] eqn:E0.
+  2: { intros [= <-]. apply shutdown_conn_sy. exact H. }
+  destruct (w_unsub_ev (mw m)) as [|[[c sc] e] q1] eqn:E1.
+  2: { intros [= <-]. repeat prop_step leaf_sy; exact H. }
+  destruct (w_unsub_all (mw m)) as [|[c sc] q2] eqn:E2.
+  2: { intros [= <-]. repeat prop_step leaf_sy; exact H. }
+  destruct (w_svc_destroyed (mw m)) as [|[c sc] q3] eqn:E3.
+  2: { intros [= <-]. repeat prop_step leaf_sy; exact H. }
+  destruct (w_rm_call (mw m)) as [|[[serial c] res] q4] eqn:E4.
+  2: { intros [= <-].
+       assert (Hres : res = CRInvalidService /\ SY (m <| mw; w_rm_call := q4 |>)).
+       { destruct H as [H1 H2]. rewrite E4 in H1. apply Forall_cons in H1 as [Hr H1]. split; [exact Hr|]. split; assumption. }
+       destruct Hres as [-> H']. repeat prop_step leaf_sy; exact H'. }
+  repeat match goal with
+         | |- match ?l with [] => _ | _ :: _ => _ end = Some _ -> _ => destruct l as [|? ?]
+         | |- (let '(_, _) := ?p in _) = Some _ -> _ => destruct p
+         end; try discriminate; intros [= <-];
+    repeat first
+      [ match goal with
+        | |- oprop _ (abort_call _ _ _) => apply abort_call_sy
+        | |- oprop _ (bus _ _) => apply bus_sy
+        end
+      | prop_step leaf_sy ]; try exact H.
+Qed.
+
+Lemma settle_sy fuel : forall m, SY m -> oprop SY (settle fuel m).
+Proof.
+  induction fuel as [|fuel IH]; intros m H; cbn [settle];
+    destruct (settle_one m) as [r|] eqn:E; try exact H;
+    pose proof (settle_one_sy m r H E) as Hr; destruct r; cbn in Hr |- *; trivial; apply IH; assumption.
+Qed.
+
+Ltac hy_step :=
+  first
+    [ match goal with
+      | |- oprop _ (remove_object _ _) => apply remove_object_sy
+      | |- oprop _ (remove_service _ _) => apply remove_service_sy
+      | |- oprop _ (remove_end _ _ _) => apply remove_end_sy
+      | |- SY (remove_listener _ _) => apply remove_listener_sy
+      end
+    | prop_step leaf_sy ].
+
+Lemma handle_sy m c x f b :
+  (match x with CallFunctionReply _ _ => False | _ => True end) ->
+  SY m -> oprop SY (handle m c x f b).
+Proof.
+  intros Hx H. unfold handle. destruct (conns (ms m) !! c) as [cs|] eqn:Hc; [|exact H].
+  destruct x; try contradiction; clear Hx;
+    unfold gate, ver_of, create_service_impl, call_impl; cbv zeta beta; try (rewrite Hc; cbn [fmap option_fmap option_map]);
+    try (solve [repeat hy_step; try assumption]).
+  match goal with |- context [chans (ms m) !! ?k] => destruct (chans (ms m) !! k) as [ch|] end;
+    [|repeat hy_step; assumption].
+  match goal with |- context [chan_claim ch c ?e] => destruct (chan_claim ch c e) as [r|ch' other r|site] end;
+    [repeat hy_step; assumption| |exact I].
+  match goal with |- context [send ?mm c ?x None] => destruct (send mm c x None) as [m2|m2|] eqn:Es end; [| |exact I].
+  - apply send_Done in Es as [-> _]. repeat hy_step; assumption.
+  - apply send_Fail in Es as [-> _]. apply oprop_refail. repeat hy_step; assumption.
+Qed.
+
+Theorem synthesized_results s e f bs s' o c serial r from :
+  step s e f bs = Done (s', o) ->
+  (match e with Message _ (CallFunctionReply _ _) => False | _ => True end) ->
+  (c, CallFunctionReply serial r, from) ∈ o ->
+  (r = CRInvalidService \/ r = CRAborted) /\ from = None.
+Proof.
+  intros Hstep He Hin. apply step_Done in Hstep as (m & m' & Hh & Hs & -> & ->).
+  assert (Hinit : SY (m_init s)) by (split; constructor).
+  assert (Hpost : SY m).
+  { destruct e; cbn [step_handler] in Hh; fold (m_init s) in Hh.
+    - destruct (conns s !! c0); [discriminate|]. injection Hh as <-. exact Hinit.
+    - injection Hh as <-. exact Hinit.
+    - assert (Hx : match m0 with CallFunctionReply _ _ => False | _ => True end) by (destruct m0; auto).
+      pose proof (handle_sy (m_init s) c0 m0 f bs Hx Hinit) as Hp.
+      destruct (handle (m_init s) c0 m0 f bs) as [m1|m1|]; try discriminate; injection Hh as <-; exact Hp.
+    - injection Hh as <-.
+      change (SY (foldr (fun (p : conn * cstate) (m : M) => push_remove m p.1 true) (m_init s) (map_to_list (conns s)))).
+      apply (prop_foldr SY); [|exact Hinit]. intros x a Hx. exact Hx.
+    - injection Hh as <-. exact Hinit.
+    - injection Hh as <-. exact Hinit.
+    - injection Hh as <-. destruct (conns s !! c0); exact Hinit. }
+  pose proof (settle_sy (fuel_for (ms m)) m Hpost) as Hsp.
+  assert (Hall : Forall Ksyn (mo m')) by (destruct Hs as [Hs|Hs]; rewrite Hs in Hsp; exact (proj2 Hsp)).
+  rewrite Forall_forall in Hall. exact (Hall _ Hin).
+Qed.
